@@ -4546,3 +4546,136 @@ func E5FormatConstant(c *core.Ctx, r *core.Report) {
 	r.Count("E5.printf-style-calls", n)
 	r.Floor("E5.printf-style-calls", 40)
 }
+
+// E5MemoTestCoversFields: a setter that skips its operator when nothing changed compares everything it remembers.
+func E5MemoTestCoversFields(c *core.Ctx, r *core.Report) {
+	r.Rule("E5.memo-test-covers-fields", "the page writer's setters emit their operator only when the value differs from what they remember: `if a != w.a || b != w.b { w.a = a; w.b = b; emit }`. The operator is skipped exactly when every remembered field equals the new value, so each field the body assigns from a parameter appears in the condition as a disjunct of its own, `w.F != param` or a negated `Equal` of the two and nothing else; a disjunct weakened by a further conjunct (`vertical && w.fontDirection != direction`) skips the operator for some changes of that field. SetFont then emits no Tf when a horizontal span follows a vertical one in the same font and size: the text is shown with the Identity-V font object and advances downwards")
+	p := c.MustPkg("renderers/pdf")
+	info := p.TypesInfo
+	n := 0
+	for _, fd := range core.AllFuncDecls(p) {
+		if fd.Body == nil || fd.Recv == nil || len(fd.Recv.List) != 1 || !isNamedDeref(info.TypeOf(fd.Recv.List[0].Type), "pdfPageWriter") {
+			continue
+		}
+		rcv := recvObj(info, fd)
+		params := map[types.Object]bool{}
+		for _, f := range fd.Type.Params.List {
+			for _, nm := range f.Names {
+				params[info.Defs[nm]] = true
+			}
+		}
+		for _, st := range fd.Body.List {
+			is, ok := st.(*ast.IfStmt)
+			if !ok || is.Else != nil {
+				continue
+			}
+			// fields of the receiver assigned from parameters at the top of the body
+			type memo struct {
+				field string
+				par   types.Object
+				pos   token.Pos
+			}
+			var memos []memo
+			for _, bs := range is.Body.List {
+				as, ok := bs.(*ast.AssignStmt)
+				if !ok || as.Tok != token.ASSIGN || len(as.Lhs) != len(as.Rhs) {
+					continue
+				}
+				for i, l := range as.Lhs {
+					se, ok := l.(*ast.SelectorExpr)
+					if !ok {
+						continue
+					}
+					xid, ok := core.Unparen(se.X).(*ast.Ident)
+					pid, ok2 := core.Unparen(as.Rhs[i]).(*ast.Ident)
+					if ok && ok2 && core.ObjOf(info, xid) == rcv && params[core.ObjOf(info, pid)] {
+						memos = append(memos, memo{se.Sel.Name, core.ObjOf(info, pid), as.Pos()})
+					}
+				}
+			}
+			if len(memos) == 0 {
+				continue
+			}
+			// the condition must be about the memo at all: mentions one of the fields
+			var terms []ast.Expr
+			var orTerms func(e ast.Expr)
+			orTerms = func(e ast.Expr) {
+				e = core.Unparen(e)
+				if b, ok := e.(*ast.BinaryExpr); ok && b.Op == token.LOR {
+					orTerms(b.X)
+					orTerms(b.Y)
+					return
+				}
+				terms = append(terms, e)
+			}
+			orTerms(is.Cond)
+			mentions := func(e ast.Expr, field string) bool {
+				found := false
+				ast.Inspect(e, func(q ast.Node) bool {
+					if se, ok := q.(*ast.SelectorExpr); ok && se.Sel.Name == field {
+						if xid, ok := core.Unparen(se.X).(*ast.Ident); ok && core.ObjOf(info, xid) == rcv {
+							found = true
+						}
+					}
+					return true
+				})
+				return found
+			}
+			any := false
+			for _, m := range memos {
+				any = any || mentions(is.Cond, m.field)
+			}
+			if !any {
+				continue
+			}
+			for _, m := range memos {
+				n++
+				key := fmt.Sprintf("pdf.%s|remembered field `%s` is compared on its own", core.FuncName(fd), m.field)
+				good := false
+				for _, t := range terms {
+					var opX, opY ast.Expr
+					if be, ok := t.(*ast.BinaryExpr); ok && be.Op == token.NEQ {
+						opX, opY = be.X, be.Y
+					} else if u, ok := t.(*ast.UnaryExpr); ok && u.Op == token.NOT {
+						// !a.Equal(b), !pkg.Equal(a, b)
+						if ce, ok := core.Unparen(u.X).(*ast.CallExpr); ok {
+							if f := core.CalleeOf(info, ce); f != nil && (f.Name() == "Equal" || f.Name() == "Equals") {
+								if se, ok := ce.Fun.(*ast.SelectorExpr); ok && len(ce.Args) == 1 && f.Type().(*types.Signature).Recv() != nil {
+									opX, opY = se.X, ce.Args[0]
+								} else if len(ce.Args) == 2 {
+									opX, opY = ce.Args[0], ce.Args[1]
+								}
+							}
+						}
+					}
+					if opX == nil {
+						continue
+					}
+					be := &ast.BinaryExpr{X: opX, Y: opY}
+					isField := func(e ast.Expr) bool {
+						se, ok := core.Unparen(e).(*ast.SelectorExpr)
+						if !ok || se.Sel.Name != m.field {
+							return false
+						}
+						xid, ok := core.Unparen(se.X).(*ast.Ident)
+						return ok && core.ObjOf(info, xid) == rcv
+					}
+					isPar := func(e ast.Expr) bool {
+						id, ok := core.Unparen(e).(*ast.Ident)
+						return ok && core.ObjOf(info, id) == m.par
+					}
+					if (isField(be.X) && isPar(be.Y)) || (isField(be.Y) && isPar(be.X)) {
+						good = true
+					}
+				}
+				if good {
+					r.OK("E5.memo-test-covers-fields", key, c.Pos(is.Pos()), "")
+				} else {
+					r.Fail("E5.memo-test-covers-fields", key, c.Pos(is.Pos()), fmt.Sprintf("the body remembers `%s.%s = %s`, but `%s` has no disjunct that is just `%s.%s != %s` (or a negated Equal of the two): for some changes of that value the operator is skipped and the previous setting stays in force", rcv.Name(), m.field, m.par.Name(), c.Src(is.Cond), rcv.Name(), m.field, m.par.Name()))
+				}
+			}
+		}
+	}
+	r.Count("E5.memo-fields", n)
+	r.Floor("E5.memo-fields", 3)
+}
